@@ -1,10 +1,17 @@
-(* C15 — xml5ever: result independent of chunking and diagnostic options.  Statements only. *)
+(* C15 — xml5ever: result independent of chunking and diagnostic options.  Statements only.
+
+   WHAT IS PROVED: (1) reflective facts on the regenerated xml table: bulk sets contain CR and NUL and every
+   singled-out character; reads come first.  (2) chunk independence of the tokenizer's reference semantics (flat
+   queue, exact_errors = true) for the regenerated xml table — _partial: the run relation carries the side condition
+   [step_ok] (the reconsume flag is clear whenever a look-ahead state is entered), which is true of the xml table by
+   inspection (no `reconsume` targets MarkupDecl / AfterDoctypeName) but is not proved as an invariant here.
+   NOT PROVED (tied by differential runs / oracles in the check): agreement of the chunked-queue interpreter with the
+   reference semantics up to merging of character tokens, agreement with the Rust code, the tree-builder half, the
+   normalisation law tree(x) = tree(normalise x). *)
 From Coq Require Import List NArith Bool.
-From HV Require Import TokIR.IR TokIR.Interp TokIR.Checks Gen.GenXmlTok Inst.InstXmlTok.
+From HV Require Import TokIR.IR TokIR.Interp TokIR.Checks TokIR.Chunk Gen.GenXmlTok Inst.InstXmlTok Inst.InstChunk.
 Import ListNotations.
 
-(* every bulk-read state of the regenerated xml table stops at CR and NUL (the characters the slow path rewrites)
-   and at every character its FromSet arms single out; the default arm is the per-character form of the run arm *)
 Theorem C15_bulk_sets_adequate : sets_adequate xstate_beq false xml_table = [].
 Proof. exact xml_sets_adequate. Qed.
 Print Assumptions C15_bulk_sets_adequate.
@@ -12,3 +19,15 @@ Print Assumptions C15_bulk_sets_adequate.
 Theorem C15_reads_first : reads_first xml_table = [].
 Proof. exact xml_reads_first. Qed.
 Print Assumptions C15_reads_first.
+
+Theorem C15_reference_semantics_chunk_independent_partial :
+  forall simd ent c1 sk inj cs1 cs2 m m1 m2,
+  all_nonempty cs1 -> all_nonempty cs2 -> cs1 <> [] -> cs2 <> [] -> concat cs1 = concat cs2 ->
+  feed_chunks xml_flavour true xml_table simd ent c1 sk inj m cs1 m1 ->
+  feed_chunks xml_flavour true xml_table simd ent c1 sk inj m cs2 m2 -> m1 = m2.
+Proof. exact xml_chunking_independent_partial. Qed.
+Print Assumptions C15_reference_semantics_chunk_independent_partial.
+
+Theorem C15_table_shapes : (forall s, shape xml_flavour (xml_step s) = true) /\ (forall s, no_eof (xml_step s) = true).
+Proof. split; [exact xml_shape_all|exact xml_no_eof_all]. Qed.
+Print Assumptions C15_table_shapes.
